@@ -55,6 +55,11 @@ def cases(tier, seed):
                    hold=rnd.choice(['until-release', 'until-release', 'no']),
                    one_write=rnd.random() < 0.5, nrq=rnd.choice([1, 1, 2]),
                    first=rnd.random() < 0.5, seed=seed * 17 + i)
+    for i in range(40 if tier == 'quick' else 1500):
+        yield dict(kind='peer-ends-between-exchanges', how=rnd.choice(['abort', 'abort', 'release']),
+                   source=rnd.choice([0, 2]), reason=rnd.choice([0, 1, 5, 200]),
+                   pause=rnd.choice([0.2, 0.7, 3.0]), nfirst=rnd.choice([1, 2]),
+                   seed=seed * 29 + i)
     for i in range(30 if tier == 'quick' else 1000):
         yield dict(kind='peer-abort-during-transfer', source=rnd.choice([0, 2]),
                    reason=rnd.choice([0, 1, 5, 200]), after=rnd.choice([2, 5, 9]),
@@ -218,6 +223,58 @@ def run_case(case):
             elif (e.source, e.reason_diag) != (src, rsn):
                 v('abort-fields-not-preserved', 'peer sent (%d,%d) surfaced %r' % (
                     src, rsn, (e.source, e.reason_diag)))
+            return _fin(world, viol, case, wire)
+        if kind == 'peer-ends-between-exchanges':
+            # the peer aborts (or asks for release) while the user is between two exchanges:
+            # nothing is waiting for a reply at that moment; the NEXT service call must surface
+            # it as the corresponding error with the abort fields intact
+            src, rsn = case['source'], case['reason']
+            cnt = {'n': 0}
+
+            def on_msg2(peer, m):
+                cnt['n'] += 1
+                peer.send_message(m['pcid'], {0x0002: rc.VERIFICATION, 0x0100: 0x8030,
+                                              0x0120: m['fields'].get(0x0110), 0x0800: 0x0101,
+                                              0x0900: 0})
+                if cnt['n'] == case['nfirst']:
+                    peer.sim.sleep(0.05)
+                    if case['how'] == 'abort':
+                        peer.send(rc.enc_abort(src, rsn))
+                    else:
+                        peer.send(rc.enc_release_rq())
+            world.serve_peer(ADDR, lambda sock: peers.ScriptedAcceptor(
+                world.sim, sock, on_message=on_msg2, close_after_release=False))
+            cli.timeout = 20.0
+            got = {'st': []}
+
+            def user6():
+                try:
+                    with cli.request_association(remote) as assoc:
+                        got['established'] = True
+                        for j in range(case['nfirst']):
+                            got['st'].append(int(assoc.get_scu(rc.VERIFICATION)(j + 1)))
+                        world.sim.sleep(case['pause'])
+                        got['second'] = int(assoc.get_scu(rc.VERIFICATION)(9))
+                except Exception as e:  # pylint: disable=broad-except
+                    got['exc'] = e
+            world.spawn(user6, 'user')
+            world.run(tmax=600)
+            world.drain(5.0)
+            asceprovider.Association._get_dul_message = orig
+            e = got.get('exc')
+            if got.get('st') != [0] * case['nfirst']:
+                v('exchange-before-the-ending-failed', repr((got.get('st'), e)))
+            elif case['how'] == 'abort':
+                if not isinstance(e, exceptions.AssociationAbortedError):
+                    v('abort-not-surfaced-at-requestor', 'peer aborted (%d,%d) between two '
+                      'exchanges; the next service call gave %r' % (src, rsn, e if e else
+                                                                    got.get('second')))
+                elif (e.source, e.reason_diag) != (src, rsn):
+                    v('abort-fields-not-preserved', 'peer sent (%d,%d) surfaced %r' % (
+                        src, rsn, (e.source, e.reason_diag)))
+            elif not isinstance(e, exceptions.AssociationReleasedError):
+                v('release-not-surfaced-at-requestor', 'peer requested release between two '
+                  'exchanges; the next service call gave %r' % (e if e else got.get('second'),))
             return _fin(world, viol, case, wire)
         if kind == 'peer-abort-during-transfer':
             # a slow receiver (little buffering between the applications) aborts while the
